@@ -41,7 +41,7 @@ def validate(ctx, o6):
 def run(ctx, replay):
     quick = ctx.quick()
     sizes = _idxfam.shapes(ctx)
-    names = ["KPCD", "undelete", "filetree", "twosigners", "members", "late-delete", "delpn-attrs"]
+    names = _idxfam.shape_names(ctx)
     if replay:
         rp = json.load(open(replay))["replay"]
         rpl = [{"shape": names.index(rp["shape_name"]) + 1, "order": rp["order"], "restart": rp["restart"]}]
